@@ -4,6 +4,7 @@ pub mod c02;
 pub mod c05;
 pub mod c06;
 pub mod c07;
+pub mod c08;
 pub mod c09;
 pub mod c10;
 pub mod c11;
@@ -17,6 +18,7 @@ pub fn all() -> Vec<&'static dyn Property> {
         &c05::C05,
         &c06::C06,
         &c07::C07,
+        &c08::C08,
         &c09::C09,
         &c10::C10,
         &c11::C11,
